@@ -140,7 +140,8 @@ def n_reserved_prop_restricted_lt(ref, src):
     n = 0
     for i in _prop_tokens(ref):
         k = ref.tokens[i]
-        if k.text in RESTRICTED_KW and i + 1 < len(ref.tokens) and has_lt(src.gaps[i + 1]):
+        after_dot = i and ref.tokens[i - 1].type == 'punct' and ref.tokens[i - 1].text == '.'
+        if k.text in RESTRICTED_KW and not after_dot and i + 1 < len(ref.tokens) and has_lt(src.gaps[i + 1]):
             src.gaps[i + 1] = ' '
             n += 1
     return n
@@ -280,7 +281,6 @@ NEUTRALISERS = [
     ('c03.accessor_nonident_name', n_accessor_nonident_name),
     ('c04.restricted_kw_lt_semicolon', n_restricted_kw_lt_semicolon),
     ('c04.reserved_prop_restricted_lt', n_reserved_prop_restricted_lt),
-    ('c05.slash_after_reserved_prop', n_slash_after_reserved_prop),
     ('c05.header_paren_markers', n_header_markers),
     ('c05.regex_after_funcdecl', n_regex_after_funcdecl),
     ('c05.diveq_regex_after_brace_or_incdec', n_diveq_regex_after_backtrack_token),
@@ -351,12 +351,6 @@ def over_acceptance_signature(text, failure, info):
             if type(n).__name__ == 'PostfixExpr' and n.lexpos in incdec:
                 return 'c04.asi_before_prefix_incdec'
     part = info.get('ref_partial_tokens', ())
-    # reserved word used as property name, then a slash that the grammar makes a division
-    for i in range(len(part) - 2):
-        if part[i].type == 'punct' and part[i].text == '.' and part[i + 1].type == 'keyword' \
-                and part[i + 1].text not in ('this', 'null', 'true', 'false') \
-                and part[i + 2].text.startswith('/'):
-            return 'c05.slash_after_reserved_prop'
     # restricted keyword + comment that contains / is followed by a line terminator: the comment hides
     # the line break from the restricted-production check, the operand is not split off
     for i in range(len(part) - 1):
